@@ -18,6 +18,7 @@ OBLIGATIONS = {
     "exec-quiet": "(fun s => match run s with RExecRun => match tk s with TkListen => false | _ => true end && match rd s with RdReading => false | _ => true end && ign s && restored_last s | _ => true end)",
     "without-signals": "(fun s => negb (nosig s) || match sg s with SgSendInt | SgSendQuit => false | _ => true end)",
     "handler-alive": "(fun s => match sg s with SgDone => struck s | _ => true end)",
+    "signals-count-at-select": "(fun s => match run s with RSelect => negb (ign s) || nosig s | _ => true end)",
     "ignored-signals": "(fun s => negb (ign s) || forallb (fun e => (match sg s with SgSendInt | SgSendQuit => true | _ => false end || negb (match sg (snd e) with SgSendInt | SgSendQuit => true | _ => false end)) && match sg s, sg (snd e), fst e with SgWait, SgDone, KEnv => false | _, _, _ => true end) (steps G s))",
 }
 
